@@ -118,6 +118,7 @@ package imports
 //@   ensures gPos > old(gPos) || r.eof || r.err != nil
 //@   ensures gPos == old(gPos) || (gPos == old(gPos) + 1 && gPos <= gLen)
 //@   ensures old(gPos) == gLen ==> gPos == gLen
+//@   ensures result != 0 ==> r.eof == old(r.eof) && r.err == old(r.err) && gPos == old(gPos) + 1
 
 // representation invariant of the reader between calls
 //@ pure func peekOK(b []byte, peek int) bool = peek != 0 ==> len(b) >= 1 && at(b, hi(b)-1) == peek
@@ -125,10 +126,18 @@ package imports
 // peekByte: skips (optionally) blanks and comments; the returned byte is the last
 // byte of the buffer; 0 is returned only at end of input or after an error; the
 // explicit "import reader looping" panic is unreachable (nerr stays below its limit).
+// the position in the input just after the opening "/*" of the block comment being skipped
+//@ ghost var gCm Int
 //@ func (*importReader).peekByte
+//@   at call (*imports.importReader).readByte#3: ghost_after gCm = gPos
+//@   loop 3: invariant gCm <= gPos
+//@   loop 3: invariant r.err == nil && !r.eof ==> (gPos == gCm && c == '*' && c1 == 0) || (gPos == gCm+1 && c == 0 && c1 == gIn[gPos-1]) || (gPos >= gCm+2 && c == gIn[gPos-2] && c1 == gIn[gPos-1])
+//@   loop 3: invariant r.err == nil && r.eof ==> c1 == 0
+//@   loop 3: invariant forall Q {gIn[Q]} :: gCm+1 <= Q && Q+1 < gPos ==> !(gIn[Q-1] == '*' && gIn[Q] == '/')
+//@   loop 3: after r.err == nil ==> gPos >= gCm+2 && gIn[gPos-2] == '*' && gIn[gPos-1] == '/'
 //@   requires r != nil && r.b != nil && bufIsB(r.buf, gIn, gPos, gBase) && (r.err == nil || r.err == errSyntax || r.err == errNUL || isReadErr(r.err)) && peekOK(r.buf, r.peek) && (r.eof ==> gPos == gLen)
 //@   requires r.err != nil ==> r.nerr < 10000
-//@   modifies F_S_imports_importReader_buf, F_S_imports_importReader_err, F_S_imports_importReader_eof, F_S_imports_importReader_peek, F_S_imports_importReader_nerr, bytes, gPos
+//@   modifies F_S_imports_importReader_buf, F_S_imports_importReader_err, F_S_imports_importReader_eof, F_S_imports_importReader_peek, F_S_imports_importReader_nerr, bytes, gPos, gCm
 //@   loop 1: invariant bufIsB(r.buf, gIn, gPos, gBase) && (r.err == nil || r.err == errSyntax || r.err == errNUL || isReadErr(r.err))
 //@   loop 1: invariant len(r.buf) >= old(len(r.buf))
 //@   loop 1: invariant (c != 0 ==> len(r.buf) >= 1 && r.buf[len(r.buf)-1] == c)
@@ -160,7 +169,7 @@ package imports
 //@ func (*importReader).nextByte
 //@   requires r != nil && r.b != nil && bufIsB(r.buf, gIn, gPos, gBase) && (r.err == nil || r.err == errSyntax || r.err == errNUL || isReadErr(r.err)) && peekOK(r.buf, r.peek) && (r.eof ==> gPos == gLen)
 //@   requires r.err != nil ==> r.nerr < 10000
-//@   modifies F_S_imports_importReader_buf, F_S_imports_importReader_err, F_S_imports_importReader_eof, F_S_imports_importReader_peek, F_S_imports_importReader_nerr, bytes, gPos
+//@   modifies F_S_imports_importReader_buf, F_S_imports_importReader_err, F_S_imports_importReader_eof, F_S_imports_importReader_peek, F_S_imports_importReader_nerr, bytes, gPos, gCm
 //@   ensures bufIsB(r.buf, gIn, gPos, gBase) && (r.err == nil || r.err == errSyntax || r.err == errNUL || isReadErr(r.err)) && r.peek == 0 && len(r.buf) >= old(len(r.buf))
 //@   ensures result != 0 ==> len(r.buf) >= 1 && r.buf[len(r.buf)-1] == result
 //@   ensures r.err == nil && !r.eof ==> result != 0
@@ -172,7 +181,7 @@ package imports
 
 //@ func (*importReader).readKeyword
 //@   requires r != nil && r.b != nil && bufIsB(r.buf, gIn, gPos, gBase) && (r.err == nil || r.err == errSyntax || r.err == errNUL || isReadErr(r.err)) && peekOK(r.buf, r.peek) && (r.eof ==> gPos == gLen) && r.nerr + len(kw) + 2 <= 10000
-//@   modifies F_S_imports_importReader_buf, F_S_imports_importReader_err, F_S_imports_importReader_eof, F_S_imports_importReader_peek, F_S_imports_importReader_nerr, bytes, gPos
+//@   modifies F_S_imports_importReader_buf, F_S_imports_importReader_err, F_S_imports_importReader_eof, F_S_imports_importReader_peek, F_S_imports_importReader_nerr, bytes, gPos, gCm
 //@   at call (*imports.importReader).nextByte#0: requires !skipSpace
 //@   at call (*imports.importReader).peekByte#1: requires skipSpace
 //@   at call (*imports.importReader).peekByte#2: requires !skipSpace
@@ -197,7 +206,7 @@ package imports
 
 //@ func (*importReader).readIdent
 //@   requires r != nil && r.b != nil && bufIsB(r.buf, gIn, gPos, gBase) && (r.err == nil || r.err == errSyntax || r.err == errNUL || isReadErr(r.err)) && peekOK(r.buf, r.peek) && (r.eof ==> gPos == gLen) && r.nerr + 2 <= 10000
-//@   modifies F_S_imports_importReader_buf, F_S_imports_importReader_err, F_S_imports_importReader_eof, F_S_imports_importReader_peek, F_S_imports_importReader_nerr, bytes, gPos
+//@   modifies F_S_imports_importReader_buf, F_S_imports_importReader_err, F_S_imports_importReader_eof, F_S_imports_importReader_peek, F_S_imports_importReader_nerr, bytes, gPos, gCm
 //@   loop 1: invariant bufIsB(r.buf, gIn, gPos, gBase) && (r.err == nil || r.err == errSyntax || r.err == errNUL || isReadErr(r.err))
 //@   loop 1: invariant len(r.buf) >= old(len(r.buf))
 //@   loop 1: invariant (old(r.err) != nil ==> r.err == old(r.err))
@@ -219,7 +228,7 @@ package imports
 // readString: r.buf[start:] is always in bounds (start is the position of the opening quote).
 //@ func (*importReader).readString
 //@   requires r != nil && r.b != nil && bufIsB(r.buf, gIn, gPos, gBase) && (r.err == nil || r.err == errSyntax || r.err == errNUL || isReadErr(r.err)) && peekOK(r.buf, r.peek) && (r.eof ==> gPos == gLen) && r.nerr + 3 <= 10000
-//@   modifies F_S_imports_importReader_buf, F_S_imports_importReader_err, F_S_imports_importReader_eof, F_S_imports_importReader_peek, F_S_imports_importReader_nerr, bytes, gPos, C_Slice, H_Str
+//@   modifies F_S_imports_importReader_buf, F_S_imports_importReader_err, F_S_imports_importReader_eof, F_S_imports_importReader_peek, F_S_imports_importReader_nerr, bytes, gPos, C_Slice, H_Str, gCm
 //@   loop 1: invariant bufIsB(r.buf, gIn, gPos, gBase) && (r.err == nil || r.err == errSyntax || r.err == errNUL || isReadErr(r.err))
 //@   loop 1: invariant len(r.buf) >= old(len(r.buf))
 //@   loop 1: invariant (old(r.err) != nil ==> r.err == old(r.err))
@@ -249,7 +258,7 @@ package imports
 
 //@ func (*importReader).readImport
 //@   requires r != nil && r.b != nil && bufIsB(r.buf, gIn, gPos, gBase) && (r.err == nil || r.err == errSyntax || r.err == errNUL || isReadErr(r.err)) && peekOK(r.buf, r.peek) && (r.eof ==> gPos == gLen) && r.nerr + 6 <= 10000
-//@   modifies F_S_imports_importReader_buf, F_S_imports_importReader_err, F_S_imports_importReader_eof, F_S_imports_importReader_peek, F_S_imports_importReader_nerr, bytes, gPos, C_Slice, H_Str
+//@   modifies F_S_imports_importReader_buf, F_S_imports_importReader_err, F_S_imports_importReader_eof, F_S_imports_importReader_peek, F_S_imports_importReader_nerr, bytes, gPos, C_Slice, H_Str, gCm
 //@   ensures bufIsB(r.buf, gIn, gPos, gBase) && (r.err == nil || r.err == errSyntax || r.err == errNUL || isReadErr(r.err))
 //@   ensures peekOK(r.buf, r.peek)
 //@   ensures len(r.buf) >= old(len(r.buf))
@@ -267,7 +276,7 @@ package imports
 //@ func ReadImports
 //@   names (data, err)
 //@   requires gPos == 0 && gBase == 0 && gLen >= 0
-//@   modifies bytes, gPos, gBase, C_Slice, H_Str, F_S_imports_importReader_*
+//@   modifies bytes, gPos, gBase, C_Slice, H_Str, F_S_imports_importReader_*, gCm
 //@   loop 1: invariant r != nil && r.b != nil && bufIsB(r.buf, gIn, gPos, gBase) && (r.err == nil || r.err == errSyntax || r.err == errNUL || isReadErr(r.err)) && peekOK(r.buf, r.peek) && (r.eof ==> gPos == gLen)
 //@   loop 1: invariant r.nerr <= 60 && (r.err == nil ==> r.nerr == 0)
 //@   loop 2: invariant r != nil && r.b != nil && bufIsB(r.buf, gIn, gPos, gBase) && (r.err == nil || r.err == errSyntax || r.err == errNUL || isReadErr(r.err)) && peekOK(r.buf, r.peek) && (r.eof ==> gPos == gLen)
@@ -282,7 +291,7 @@ package imports
 //@ func ReadComments
 //@   names (data, err)
 //@   requires gPos == 0 && gBase == 0 && gLen >= 0
-//@   modifies bytes, gPos, gBase, F_S_imports_importReader_*
+//@   modifies bytes, gPos, gBase, F_S_imports_importReader_*, gCm
 //@   ensures forall K {at(data,K)} :: lo(data) <= K && K < hi(data) ==> at(data,K) == gIn[gBase + K - lo(data)]
 //@   ensures len(data) <= gPos - gBase
 
@@ -300,7 +309,7 @@ package imports
 //@   requires gPos == 0 && gBase == 0 && gLen >= 0
 //@   at call (*bufio.Reader).Peek#1: hint err == nil ==> at(data, lo(data)) == gIn[0] && at(data, lo(data)+1) == gIn[1] && at(data, lo(data)+2) == gIn[2]
 //@   at call bytes.Equal#1: hint r ==> at(a, lo(a)) == at(b, lo(b)) && at(a, lo(a)+1) == at(b, lo(b)+1) && at(a, lo(a)+2) == at(b, lo(b)+2)
-//@   modifies bytes, gPos, gBase, F_S_imports_importReader_*
+//@   modifies bytes, gPos, gBase, F_S_imports_importReader_*, gCm
 //@   ensures result != nil && fresh(result) && result.b != nil && result.err == nil && !result.eof && result.peek == 0 && result.nerr == 0 && len(result.buf) == 0
 //@   ensures gPos == gBase && (gBase == 0 || (gBase == 3 && gIn[0] == 239 && gIn[1] == 187 && gIn[2] == 191))
 
@@ -323,7 +332,7 @@ package imports
 // constraints are evaluated (on the bytes ReadImports returned) exactly when the files
 // were not listed explicitly; an open or read error is returned, never swallowed.
 //@ extern os.Open(name) (f, err)
-//@   modifies fdPath, fdMode, fdClosed, alloc, gPos, gBase, gLen, gIn
+//@   modifies fdPath, fdMode, fdClosed, alloc, gPos, gBase, gLen, gIn, gCm
 //@   ensures err == nil ==> f != nil && gPos == 0 && gBase == 0 && gLen >= 0
 //@ extern (*os.File).Close(f) (err)
 //@   modifies fdMode, fdClosed
@@ -338,7 +347,7 @@ package imports
 //@ func scanFiles
 //@   requires tags != nil
 //@   names (imps, testImps, err)
-//@   modifies fd*, gPos, gBase, gLen, gIn, bytes, C_Slice, H_Str, F_S_imports_importReader_*, M*
+//@   modifies fd*, gPos, gBase, gLen, gIn, bytes, C_Slice, H_Str, F_S_imports_importReader_*, M*, gCm
 //@   at call imports.ShouldBuild#1: requires !explicitFiles && tags == my_tags
 //@   at call imports.ShouldBuild#1: requires sameSlice(content, data)
 //@   at call imports.ReadImports#1: requires !reportSyntaxError
@@ -349,11 +358,11 @@ package imports
 // ScanFiles: the caller's files and tag map go to scanFiles unchanged, marked as explicitly named.
 //@ func ScanFiles
 //@   requires tags != nil
-//@   modifies new H_Int, fd*, gPos, gBase, gLen, gIn, bytes, C_Slice, H_Str, F_S_imports_importReader_*, M*
+//@   modifies new H_Int, fd*, gPos, gBase, gLen, gIn, bytes, C_Slice, H_Str, F_S_imports_importReader_*, M*, gCm
 //@   at call imports.scanFiles#1: requires sameSlice(files, my_files) && tags == my_tags && explicitFiles
 //@ func ScanDir
 //@   requires tags != nil
-//@   modifies new H_Int, fd*, gPos, gBase, gLen, gIn, bytes, C_Slice, H_Str, F_S_imports_importReader_*, M*
+//@   modifies new H_Int, fd*, gPos, gBase, gLen, gIn, bytes, C_Slice, H_Str, F_S_imports_importReader_*, M*, gCm
 //@   at call filepath.Join#1: requires isRegularS(typeOfS(info)) && !(len(name) >= 1 && at(name, lo(name)) == '_') && len(name) >= 3 && at(name, hi(name)-3) == '.' && at(name, hi(name)-2) == 'g' && at(name, hi(name)-1) == 'o'
 //@   at call filepath.Join#1: requires tags["*"] || firstIdx(stemOf(name), '_') < 0 || fileOK(tailOf(stemOf(name)), tags, KnownOS, KnownArch)
 //@   at call imports.scanFiles#1: requires tags == my_tags && !explicitFiles
